@@ -43,7 +43,10 @@ def run_case(rng, tier, case):
             if a.get('start_level') != a.get('end_level'): case.feature('storage_start_ne_end')
             if a.get('cost_store'): case.feature('storage_holding_cost')
     case.key = env.spec_key(gen.strip_private(spec)); case.sample = gen.abbreviate(spec); case.spec = spec
-    r = flow.run_portfolio(spec, do_extract=False)
+    via_json = rng.random() < 0.12          # the portfolio with its grid stored and loaded (JSON) before use: still the portfolio and the grid that were described
+    if via_json:
+        case.feature('portfolio_from_its_json_form')
+    r = flow.run_portfolio(spec, do_extract=False, via_json=via_json)
     if not r.ok:
         case.reject(flow.describe_error(r)); return
     if r.res == 'inaccurate':
